@@ -142,6 +142,7 @@ func checkC01(p *Prog, res *Result, tier string) {
 	res.rule("C01-R4", "the tombstone-writing batch is committed only on the false branch of newRevision <= modRevision", 1)
 	res.rule("C01-R5", "no delete / compare-and-delete is reachable from the write entry points (failure leaves the key unchanged)", 4)
 	res.rule("C01-R7", "the index value carries the deletion flag exactly when the version record written with it is the deletion marker (also in the repair write, which re-plays either kind)", 4)
+	res.rule("C01-R8", "index and version records are written without an engine TTL, except by the classified Event create (C17-R5): a record that the engine removes by itself makes a later condition fail, or a create succeed, although no write intervened", 8)
 	res.rule("C01-R6", "every engine evaluates CAS / PutIfNotExist atomically with the write: compare-before-write, one engine commit, memkv lock held from BeginBatchWrite to Commit (C11-R1/R2); the metrics wrapper forwards conditional operations unchanged (C11-R5)", 12)
 
 	// ---- R1 ----
@@ -370,6 +371,29 @@ func checkC01(p *Prog, res *Result, tier string) {
 			// a read leaves the records alone (the in-process engine's seek marker), the condition is read inside the batch's transaction
 			(o.Rule == "C11-R3" && strings.Contains(o.Construct, "read path removes only")) {
 			res.add("C01-R6", o.Rule+" "+o.Construct, o.Status, o.Pos, o.Detail)
+		}
+	}
+
+	// ---- R1 (iterator keys): the compaction scan removes the record under its iterator unconditionally only when that
+	// record is a deletion marker (never an index record), and the index record only by compare-and-delete, on the
+	// compaction branch (C07-R2/R3) and on the expiry branch (C17-R3) ----
+	{
+		sub7 := p.subResult("C07", tier)
+		for _, o := range sub7.Obls {
+			if (o.Rule == "C07-R3" && strings.Contains(o.Construct, "current record deleted only")) ||
+				(o.Rule == "C07-R2" && strings.Contains(o.Construct, "current index site")) {
+				res.add("C01-R1", o.Rule+" "+o.Construct, o.Status, o.Pos, o.Detail)
+			}
+		}
+		sub17 := p.subResult("C17", tier)
+		for _, o := range sub17.Obls {
+			if o.Rule == "C17-R3" {
+				res.add("C01-R1", o.Rule+" "+o.Construct, o.Status, o.Pos, o.Detail)
+			}
+			// ---- R8: the records the conditions are evaluated on do not vanish by themselves ----
+			if o.Rule == "C17-R5" && strings.Contains(o.Construct, "TTL operand") {
+				res.add("C01-R8", o.Rule+" "+o.Construct, o.Status, o.Pos, o.Detail)
+			}
 		}
 	}
 
